@@ -26,11 +26,17 @@ META = {
         'real helpers and by reflective checkers (soundness proved) evaluated in the kernel on hook snapshots of whole runs of every '
         'plant type and end-use option. PARTIAL: with add-ons / S-DAC-GT the economics add to the annual figures in place, so the '
         'clause "annual figure = integral x utilization" is refuted for those runs (C02_annual_is_integral_refuted, known finding) '
-        'and proved for zero adjustment (C02_annual_is_integral_partial).'),
+        'and proved for zero adjustment (C02_annual_is_integral_partial). Round 2: the utilization-efficiency and reinjection-temperature '
+        'correlations of the four power-plant types (two ambient brackets x lower/upper quadratic, linear blend), the injection-temperature '
+        'update and the plant entering temperature are inside the model (power_plant): continuity at the 15 degC bracket boundary, weights '
+        'sum to 1, electricity = availability x etau x wells x flow, topping split at the modelled ReinjTemp, useful topping heat >= 0; '
+        'recomputed by Coq on every power-plant snapshot (ElectricityProduced, HeatExtracted, HeatProduced, Tinj, TenteringPP, FirstLawEfficiency). '
+        'SurfacePlantSUTRA is modelled (stride-2 sub-sampling, injected/produced/auxiliary split, 730-step annual sums): per-step balance, '
+        'annual total = produced + auxiliary, annual produced = sum of max(simulated,0)/1e6; tied on tests/examples/SUTRAExample1.txt.'),
     'level_note': ('Trusted: Coq kernel + vm_compute; Python harness (snapshot observer, case writer). Float rounding is outside '
                    'the theorems (exact rationals) and bounded by the 1e-9 comparisons done inside Coq. Conversion-efficiency '
                    'correlations (availability, etau, reinjection temperature), wellbore and reservoir physics enter as snapshot '
-                   'values. SUTRA / AGS plants are not claimed.'),
+                   'values. The AGS plant is not claimed; SUTRA is tied on the one example that ships with the repository.'),
     'technique': 'Coq proof about an executable Gallina model + kernel-evaluated correspondence with the implementation',
     'rule': ('(a) direct calls of integrate_time_series_slice, annual_electricity_pumping_power, remaining_reservoir_heat_content, '
              'electricity_heat_production, calc_util_factor on an exhaustive small integer domain (exact, tol 0) and on random '
@@ -49,14 +55,24 @@ META = {
                  'SurfacePlant.remaining_reservoir_heat_content (np.add.accumulate)',
                  'SurfacePlantDistrictHeating.calc_util_factor (np.arange grid, np.interp)',
                  'inline formulas of SurfacePlantIndustrialHeat/HeatPump/AbsorptionChiller/DistrictHeating.Calculate',
-                 'in-place update of the annual figures by EconomicsAddOns / EconomicsS_DAC_GT'],
+                 'in-place update of the annual figures by EconomicsAddOns / EconomicsS_DAC_GT',
+                 'SurfacePlant.reinjection_temperature, power_plant_entering_temperature and the coefficient tables of '
+                 'SurfacePlant{SubcriticalORC,SupercriticalORC,SingleFlash,DoubleFlash}.Calculate (availability_water, a logarithm, is run data)',
+                 'SurfacePlantSUTRA.Calculate (numpy stride slicing, boolean-mask assignment, Python round())'],
     'assumptions': ['IEEE rounding of intermediate operations is not modelled; model and code are compared at 1e-9 relative',
-                    'availability, etau, reinjection temperature, produced temperature and pumping power are taken from the run'],
+                    'availability (CoolProp-free but logarithmic), produced temperature and pumping power are taken from the run'],
     'fingerprint': [('src/geophires_x/SurfacePlant.py', 'SurfacePlant.integrate_time_series_slice'),
                     ('src/geophires_x/SurfacePlant.py', 'SurfacePlant.electricity_heat_production'),
                     ('src/geophires_x/SurfacePlant.py', 'SurfacePlant.annual_electricity_pumping_power'),
                     ('src/geophires_x/SurfacePlant.py', 'SurfacePlant.remaining_reservoir_heat_content'),
                     ('src/geophires_x/SurfacePlantDistrictHeating.py', 'SurfacePlantDistrictHeating.calc_util_factor'),
+                    ('src/geophires_x/SurfacePlant.py', 'SurfacePlant.reinjection_temperature'),
+                    ('src/geophires_x/SurfacePlant.py', 'SurfacePlant.power_plant_entering_temperature'),
+                    ('src/geophires_x/SurfacePlantSubcriticalORC.py', 'SurfacePlantSubcriticalOrc.Calculate'),
+                    ('src/geophires_x/SurfacePlantSupercriticalORC.py', 'SurfacePlantSupercriticalOrc.Calculate'),
+                    ('src/geophires_x/SurfacePlantSingleFlash.py', 'SurfacePlantSingleFlash.Calculate'),
+                    ('src/geophires_x/SurfacePlantDoubleFlash.py', 'SurfacePlantDoubleFlash.Calculate'),
+                    ('src/geophires_x/SurfacePlantSUTRA.py', 'SurfacePlantSUTRA.Calculate'),
                     ('src/geophires_x/SurfacePlantHeatPump.py', 'SurfacePlantHeatPump.Calculate'),
                     ('src/geophires_x/SurfacePlantAbsorptionChiller.py', 'SurfacePlantAbsorptionChiller.Calculate'),
                     ('src/geophires_x/SurfacePlantIndustrialHeat.py', 'SurfacePlantIndustrialHeat.Calculate'),
